@@ -196,7 +196,13 @@ ANY32 = st.characters(exclude_categories=["Cs"])
 def str_values(alpha, maxlen):
     sizes = st.one_of(st.integers(0, 3), st.integers(0, min(maxlen, 40)),
                       st.sampled_from([maxlen - 1, maxlen]) if maxlen <= 300 else st.integers(0, 300))
-    return sizes.flatmap(lambda n: st.text(alphabet=alpha, min_size=n, max_size=n))
+    plain = sizes.flatmap(lambda n: st.text(alphabet=alpha, min_size=n, max_size=n))
+    if alpha in (BMP, ANY32):
+        # characters that codecs give a meaning of their own at the start of a text: byte-order marks, NUL; they are characters of
+        # the value like any other
+        marked = st.tuples(st.sampled_from(["\ufeff", "\ufffe", "\x00", "\ufeff\ufeff"]), plain).map(lambda t: (t[0] + t[1])[:maxlen])
+        return st.one_of(plain, plain, plain, marked)
+    return plain
 
 
 @st.composite
